@@ -85,7 +85,7 @@ func applyFault(d, spec string) string {
 	panic("unknown fault spec " + spec)
 }
 
-var ldOps = []string{"idnum", "idobj", "idarr", "ctxnum", "ctxloop", "ctxkeyword", "typenum", "typeobj", "valobj", "vallist", "badlang", "listlist", "revnum", "graphnum", "idbool"}
+var ldOps = []string{"ctxcontainer", "ctxprotected", "idnum", "idobj", "idarr", "ctxnum", "ctxloop", "ctxkeyword", "typenum", "typeobj", "valobj", "vallist", "badlang", "listlist", "revnum", "graphnum", "idbool"}
 
 // ldCorrupt re-serialises the document with one structural corruption at the k-th node object.
 // If the text is not JSON it is returned unchanged.
@@ -151,6 +151,10 @@ func ldCorrupt(d, op string, k int) string {
 		n["@id"] = map[string]any{"a": json.Number("1")}
 	case "idarr":
 		n["@id"] = []any{"a", "b"}
+	case "ctxcontainer":
+		top["@context"] = map[string]any{"simT": map[string]any{"@id": "http://sim.example/t", "@container": json.Number("5")}}
+	case "ctxprotected":
+		top["@context"] = map[string]any{"@protected": json.Number("5"), "simT": "http://sim.example/t"}
 	case "ctxnum":
 		top["@context"] = json.Number("7")
 	case "ctxloop":
